@@ -284,8 +284,12 @@ def _bright_case(args):
     images = [rs.randint(0, 255, (FR, FR)).astype(np.uint8),
               np.full((FR, FR), 7, np.uint8),
               (np.arange(FR * FR).reshape(FR, FR) % 256).astype(np.uint8)]
+    # 16-bit cameras: gray values beyond the int16 range
+    images.append(rs.randint(30000, 65535, (FR, FR)).astype(np.uint16))
+    images.append(rs.randint(0, 2 ** 20, (FR, FR)).astype(np.int32))
     bgs = [rs.randint(0, 255, (FR, FR)).astype(np.uint8),
-           np.zeros((FR, FR), np.uint8)]
+           np.zeros((FR, FR), np.uint8),
+           rs.randint(0, 40000, (FR, FR)).astype(np.uint16)]
     out = []
     cnt = 0
     for mi in range(chunk, len(masks), nchunks):
